@@ -199,3 +199,20 @@ def chunked_two_noise(vc):
     k = Int('k')
     vc.ensure('C10/chunking/two-noise-sources/post/first-chunk-equals-one-shot-segment', Implies(And(k >= 0, k < n1), eq(v1.at((k,)), w.at((k,)))))
     vc.ensure('C10/chunking/two-noise-sources/post/second-chunk-equals-one-shot-segment', Implies(And(k >= 0, k < n2), eq(v2.at((k,)), w.at((n1 + k,)))))
+
+
+@contract('C10', 'request_length_fp', functions=[DS + '._update_t', DS + '.get_samples'], mode='fp-relerr')
+def request_length_fp(vc):
+    """A request of n samples returns exactly n samples (time grid and voltage buffer) - also in floating point."""
+    cls = classref(vc, DS)
+    sr, t0 = Real('sample_rate'), Real('t0')
+    vc.assume(And(sr >= 1, sr <= 10 ** 12, t0 >= 0, t0 <= 10 ** 9))
+    n = Int('n')
+    vc.assume(And(n >= 1, n <= 2 ** 40))
+    with fp(vc):
+        s = vc.interp.call(cls, [], dict(sample_rate=sr, fch1=Real('fch1'), ascending=True, t_start=t0, seed=Int('seed')))
+        vc.interp.call(vc.interp.getattr(s, 'add_noise'), [0, 1], {})
+        out = vc.run(lambda: vc.interp.call(vc.interp.getattr(s, 'get_samples'), [n], {}))
+    vc.ensure('C10/request-length-fp/exc/none', out.ok)
+    if out.ok:
+        vc.ensure('C10/request-length-fp/post/exactly-n-samples', And(eq(out.value.shape[0], n), eq(s.fields['ts'].shape[0], n), eq(s.fields['rng'].pos, n)))
